@@ -14,7 +14,7 @@ K = lexinc.KIND
 
 def run(chk):
     th = build("plain")
-    lens = [(1, 1), (2, 1), (3, 1), (4, 1)] + ([(5, 40)] if chk.thorough else [])
+    lens = [(1, 1), (2, 1), (3, 1), (4, 1)] + ([(5, 6)] if chk.thorough else [])
     if not chk.thorough:
         lens[3] = (4, 2)                     # quick: half of the 14641 patterns of length 4, slice chosen by the seed
 
